@@ -289,6 +289,24 @@ gen_plan(const ProfileCfg &pc, uint64_t run_seed)
                         }
                 }
         }
+        // C17 L2: pre-emption points inside calls (the next op, of another task, runs inside this op's call)
+        if (nt > 1 && r.chance(0.4)) {
+                uint32_t want = r.range(1, 3), placed = 0;
+                for (int tries = 0; tries < 40 && placed < want && p.ops.size() > 1; tries++) {
+                        size_t k = r.below((uint32_t) p.ops.size() - 1);
+                        Op &a = p.ops[k];
+                        const Op &b = p.ops[k + 1];
+                        if (a.pre || a.task == b.task || (k > 0 && p.ops[k - 1].pre))
+                                continue;
+                        if (a.kind != OP_SUBMIT && a.kind != OP_FLUSH && a.kind != OP_BURST && a.kind != OP_FLUSH_BURST &&
+                            a.kind != OP_GET_COMPLETED && a.kind != OP_FLUSH_ALL)
+                                continue;
+                        // roughly log-uniform instruction count: short calls are a few hundred instructions long
+                        static const uint32_t mags[5] = { 10, 60, 300, 1200, 4000 };
+                        a.pre = 4 + r.below(mags[r.below(5)]);
+                        placed++;
+                }
+        }
         return p;
 }
 
@@ -512,6 +530,7 @@ gen_plan_sgl(const ProfileCfg &pc, uint64_t run_seed)
         go.len_profile = LEN_MIXED;
         go.max_len = pc.max_len;
         go.offsets = false;
+        go.guard = pc.guard;
         uint32_t nstreams = r.range(1, 4);
         std::vector<uint32_t> remaining;
         for (uint32_t i = 0; i < nstreams; i++) {
